@@ -14,13 +14,15 @@
     * text      `Text` = from the start of the first to the end of the last token of a RUN of
                 consecutive tokens of `ts` (text and CDATA tokens, with tokens the builder ignores
                 in between), and the value is the concatenation of the decoded run;
-    * comment / PI   the body / target / content spans of a `Comment` / `PI` token, whose texts are
-                the node's value.
+    * comment / PI   the body / target / content spans of a `Comment` / `PI` token; the node's value
+                (PI: data) is `normalizeLineEnds` (CR LF / CR → LF) of the body / content text, the PI's
+                name is the target text as written, which is not `xml` in any letter case.
   `DInv ts done b` is the invariant of the token loop after the tokens `done` (Lemmas/SpanDescStep).
 -/
 import XotModel.Lemmas.ParseSpanTotal
 import XotModel.Lemmas.ParseSpanKeys
 import XotModel.Lemmas.ParseSpanOrder
+import XotModel.Lemmas.LineEnds
 
 namespace XotModel
 
@@ -120,15 +122,17 @@ def OpenText (done : List Token) (g : SpanKey → Option Span) (path : Path) (v 
     runValue run = some v ∧ g ⟨path, .text⟩ = some sp
 
 def CommentFacts (ts : List Token) (g : SpanKey → Option Span) (path : Path) (v : Str) : Prop :=
-  ∃ t sp, Token.comment t sp ∈ ts ∧ g ⟨path, .comment⟩ = some t.span ∧ v = t.text
+  ∃ t sp, Token.comment t sp ∈ ts ∧ g ⟨path, .comment⟩ = some t.span ∧
+    v = normalizeLineEnds t.text
 
 def PiFacts (ts : List Token) (g : SpanKey → Option Span) (env : Env) (path : Path) (id : Nat)
     (d : Option Str) : Prop :=
   ∃ target content sp, Token.pi target content sp ∈ ts ∧
     g ⟨path, .piTarget⟩ = some target.span ∧
     env.names[id]? = some (target.text, Env.noNamespace) ∧
-    d = content.map (fun c => c.text) ∧
-    ∀ c, content = some c → g ⟨path, .piContent⟩ = some c.span
+    d = content.map (fun c => normalizeLineEnds c.text) ∧
+    (∀ c, content = some c → g ⟨path, .piContent⟩ = some c.span) ∧
+    isReservedPiTarget target.text = false
 
 /-! ### The tree -/
 
